@@ -1924,8 +1924,17 @@ class Connection(utils.CompositeEventEmitter):
 
         abort = asyncio.get_running_loop().create_future()
         with closing(utils.EventWatcher()) as watcher:
-            watcher.on(self, self.EVENT_DISCONNECTION, abort.set_result)
-            watcher.on(self, self.EVENT_DISCONNECTION_FAILURE, abort.set_exception)
+
+            # The caller may have been cancelled already when the event is emitted
+            @watcher.on(self, self.EVENT_DISCONNECTION)
+            def _(reason: int) -> None:
+                if not abort.done():
+                    abort.set_result(reason)
+
+            @watcher.on(self, self.EVENT_DISCONNECTION_FAILURE)
+            def _(error: Exception) -> None:
+                if not abort.done():
+                    abort.set_exception(error)
 
             await asyncio.wait_for(
                 utils.cancel_on_event(self.device, Device.EVENT_FLUSH, abort), timeout
